@@ -4,6 +4,7 @@
 package sim
 
 import (
+	"bytes"
 	"crypto/sha256"
 	"encoding/hex"
 	"fmt"
@@ -100,6 +101,9 @@ type World struct {
 
 	// Rewrite may alter / drop what a recipient gets. Called once per (message, recipient) at routing time.
 	Rewrite func(w *World, m *Msg, to *Node) (wire []byte, bcast bool, from *tss.PartyID, drop bool)
+	// ShareObjects: deliver genuine messages through Party.Update with the sender's ParsedMessage object itself (shared by
+	// all recipients) instead of per-recipient bytes: the in-process transport of an application that runs several parties.
+	ShareObjects bool
 	// Hold lets an interceptor postpone routing of a message (it is re-offered after every step).
 	Hold func(w *World, m *Msg) bool
 	held []*Msg
@@ -290,7 +294,14 @@ func (w *World) Exec(i int) *Event {
 		}
 	case EvDeliver:
 		ev.Node.Inbox = append(ev.Node.Inbox, ev.Msg.Key()+tagSuffix(ev.Tag))
-		ok, err := ev.Node.Party.UpdateFromBytes(ev.Wire, ev.FromPID, ev.Bcast)
+		var ok bool
+		var err *tss.Error
+		if pm, isPM := ev.Msg.Orig.(tss.ParsedMessage); w.ShareObjects && isPM && ev.Tag == "" && bytes.Equal(ev.Wire, ev.Msg.Wire) && ev.Bcast == ev.Msg.Bcast {
+			// in-process transport: the very message object the sender emitted is handed to every recipient
+			ok, err = ev.Node.Party.Update(pm)
+		} else {
+			ok, err = ev.Node.Party.UpdateFromBytes(ev.Wire, ev.FromPID, ev.Bcast)
+		}
 		rec.OK = ok
 		for _, f := range w.OnReturn {
 			f(ev, ok, err)
